@@ -354,7 +354,7 @@ func TestC01(t *testing.T) {
 		edits := enumerateEdits(doc, nil)
 		r.Extra("description_edits_enumerated:"+b, fmt.Sprint(len(edits)))
 		if rec.Thorough() {
-			for _, e := range edits {
+			for _, e := range append(append([]cdEdit{}, edits...), friEdits(doc)...) {
 				item++
 				if !mine(item) {
 					continue
@@ -378,6 +378,18 @@ func TestC01(t *testing.T) {
 				}
 				e := e
 				exec(t, c01Case{Base: b, K: 28, Kind: "desc", Edit: &e}, "desc-enumerated/"+cat)
+			}
+		}
+		// FRI part of the description (each copy of the duplicated configuration alone and both together)
+		if b == "A1" {
+			kk := 3
+			for _, e := range friEdits(doc) {
+				item++
+				if !mine(item) {
+					continue
+				}
+				e := e
+				exec(t, c01Case{Base: b, K: kk, Kind: "desc", Edit: &e}, "desc-enumerated/fri-"+e.Path[len(e.Path)-1])
 			}
 		}
 		rec.SetRapid("desc/"+b, rec.Share(70))
